@@ -100,6 +100,13 @@ package test
 //@   ensures [d1.other] !br.conn0.closing && !br.conn1.closing && fromID != 0 ==> sameSeq(br.queue0to1, atlock(br.queue0to1)) && sameSeq(br.stack0, atlock(br.stack0))
 
 // scripted impairments: counters are set as given; Reorder mirrors the queue; Drop removes n messages from offset
+// random loss is a requested impairment: the chance is set as given on both endpoints (0 switches it off again)
+//@ func (br *Bridge) SetLossChance(chance int) (err error)
+//@   requires br.conn0 != nil && br.conn1 != nil
+//@   modifies clock, br.conn0.lossChance, br.conn1.lossChance
+//@   ensures [range] (err == nil) == (0 <= chance && chance <= 100)
+//@   ensures [set] err == nil ==> br.conn0.lossChance == chance && br.conn1.lossChance == chance
+//@   ensures [kept] err != nil ==> br.conn0.lossChance == old(br.conn0.lossChance) && br.conn1.lossChance == old(br.conn1.lossChance)
 //@ func (br *Bridge) Filter(fromID int, cb func([]byte) bool)
 //@   ensures [set] (fromID == 0 ==> br.filterCB0 == cb && br.filterCB1 == atlock(br.filterCB1)) && (fromID != 0 ==> br.filterCB1 == cb && br.filterCB0 == atlock(br.filterCB0))
 //@   ensures [rest] sameSeq(br.queue0to1, atlock(br.queue0to1)) && sameSeq(br.queue1to0, atlock(br.queue1to0)) && sameSeq(br.stack0, atlock(br.stack0)) && sameSeq(br.stack1, atlock(br.stack1)) &&
@@ -155,5 +162,5 @@ package test
 //@   ensures [count] n == (atlock(len(br.queue0to1)) - len(br.queue0to1)) + (atlock(len(br.queue1to0)) - len(br.queue1to0))
 //@   ensures [rest] sameSeq(br.stack0, atlock(br.stack0)) && sameSeq(br.stack1, atlock(br.stack1))
 
-//@ property C18: NewBridge, inverse, drop, Bridge.Tick, Bridge.Push, Bridge.DropNextNWrites, Bridge.ReorderNextNWrites, Bridge.Reorder, Bridge.Drop, bridgeConn.Write, Bridge.Filter, Bridge.Len
+//@ property C18: NewBridge, inverse, drop, Bridge.Tick, Bridge.Push, Bridge.DropNextNWrites, Bridge.ReorderNextNWrites, Bridge.Reorder, Bridge.Drop, bridgeConn.Write, Bridge.Filter, Bridge.Len, Bridge.SetLossChance
 //@ property C10: NewBridge, bridgeConn.Read, bridgeConn.SetReadDeadline
